@@ -1,4 +1,4 @@
-\* C19 contract refinement: key "1:a" x versions 1..2 x prefixes {"", "p"} x backend TIMEOUT {None, 0, 2} x timeouts {DEFAULT, None, 0, 1}, values {1, opaque}, 2 instants
+\* MUST FAIL (TIMEOUT 0 stored forever): C19 contract refinement: key "1:a" x versions 1..2 x prefixes {"", "p"} x backend TIMEOUT {None, 0, 2} x timeouts {DEFAULT, None, 0, 1}, values {1, opaque}, 2 instants
 SPECIFICATION Spec
 CONSTANTS
   QBase = 10
@@ -11,7 +11,7 @@ CONSTANTS
   KeyPrefixes <- mc_Prefixes
   BackendTimeouts <- mc_Timeouts
   MaxNow = 1
-  DjDev <- mc_NoDjDev
+  DjDev <- mc_DevZero
   MaxVer = 2
   Tms <- mc_Tms
 CONSTRAINT Bounded
